@@ -27,7 +27,8 @@ package pubsub
 
 // getIPStats / getPeerStats: the existing object, or the (possibly new, zeroed) object of the peer's IP.
 //@ func (*peerGater).getIPStats
-//@   property C13
+//@   property C13 C12
+//@   safe
 //@   holds peerGater.Mutex
 //@   requires rep: gaterRep(pg)
 //@   noframe
@@ -36,7 +37,8 @@ package pubsub
 //@   ensures counts-kept: forall o *peerGaterStats :: old(allocated(o)) ==> o.connected == old(o.connected) && o.expire == old(o.expire)
 
 //@ func (*peerGater).getPeerStats
-//@   property C13
+//@   property C13 C12
+//@   safe
 //@   holds peerGater.Mutex
 //@   requires rep: gaterRep(pg)
 //@   noframe
